@@ -322,6 +322,23 @@ def generate(name, expanded_src=None):
                 s, t = rsx.find_item(src, parts[1], parts[2])
                 cfg = get_cfg(default_cfg)
                 txt = rsx.resolve_cfg(src[s:t], cfg)
+                mder = re.search(r'#\[derive\(([^)]*)\)\]', src[s:t])
+                if mder and 'Clone' in mder.group(1) and 'Copy' in mder.group(1):
+                    txt = "#[derive(Clone, Copy)]\n" + txt.lstrip()
+                # visibility normalised to `pub` (same transformation as for functions)
+                txt = txt.replace("pub(crate)", "pub")
+                txt = re.sub(r'^(\s*)const ', r'\1pub const ', txt)
+                if len(parts) > 3 and 'limbs' in parts[3:]:
+                    # const initialised by w64be/w64le with literal limbs -> tuple-struct literal
+                    # (w64be/w64le are proved in the same unit to build exactly that array)
+                    def _be(m):
+                        a = [x.strip() for x in m.group(2).split(',') if x.strip()]
+                        if len(a) != 4 or not all(re.match(r'^[0-9A-Fa-fxX_]+(u64)?$', x) for x in a):
+                            raise rsx.SliceError("const %s: w64be/w64le arguments are not four literals" % parts[2])
+                        if m.group(1) == 'w64be':
+                            a = a[::-1]
+                        return "GF255([%s])" % ", ".join(a)
+                    txt = re.sub(r'\b\w+::(w64be|w64le)\(([^()]*)\)', _be, txt)
                 out.append(txt + '\n')
             except rsx.SliceError as ex:
                 u.errors.append("item %s: %s" % (rest, ex))
